@@ -278,6 +278,19 @@ def _spec_std(kind, variant):
     if kind == 'p2sh_p2wsh_multisig_partially_signed':
         return _spec([[1, 0, codec.push(b'\x00\x20' + codec.sha256(ms)).hex(), 0xffffffff]], out,
                      wit=[['', sig.hex(), ms.hex()]])
+    if kind.startswith('ms_slots:'):
+        # incompletely signed 2-of-3 inputs as other software hands them around: one slot per key, each holding a
+        # signature, an empty placeholder, or nothing
+        _, carrier, layout = kind.split(':')
+        sigs3 = [sig, SIG_B, SIG_A[:-1] + b'\x01' if variant == 2 else SIG_B[:6] + b'\x55' + SIG_B[7:]]
+        slots = [sigs3[i] if ch == 's' else b'' for i, ch in enumerate(layout) if ch != '-']
+        if carrier == 'p2sh':
+            body = b'\x00' + b''.join(P(x) if x else b'\x00' for x in slots) + P(ms)
+            return _spec([[1, 0, body.hex(), 0xffffffff]], out)
+        stack = [''] + [x.hex() for x in slots] + [ms.hex()]
+        if carrier == 'p2wsh':
+            return _spec([[1, 0, '', 0xffffffff]], out, wit=[stack])
+        return _spec([[1, 0, codec.push(b'\x00\x20' + codec.sha256(ms)).hex(), 0xffffffff]], out, wit=[stack])
     p2pk = codec.push(P1) + b'\xac'
     htlc = b'\x63\xa8\x20' + b'\x33' * 32 + b'\x88' + codec.push(P1) + b'\x67\x02\x90\x00\xb2\x75' + codec.push(P2) + \
         b'\x68\xac'
@@ -319,6 +332,8 @@ STD_KINDS = ['p2pkh', 'p2pkh_uncompressed', 'p2pk', 'p2sh_multisig', 'bare_multi
              'p2wsh_multisig_partially_signed', 'p2sh_p2wsh_multisig_partially_signed', 'p2wsh_p2pk', 'p2sh_p2wsh_p2pk',
              'p2wsh_htlc_claim', 'p2wsh_htlc_timeout', 'p2sh_custom_script', 'p2tr_keypath', 'p2tr_keypath_sighash', 'p2tr_scriptpath',
              'mixed_legacy_and_segwit_inputs', 'p2wpkh_two_inputs', 'coinbase_legacy', 'coinbase_segwit']
+STD_KINDS += ['ms_slots:%s:%s' % (c, ''.join(l)) for c in ('p2wsh', 'p2sh_p2wsh', 'p2sh')
+              for l in __import__('itertools').product('se-', repeat=3)]
 
 
 # ---------------------------------------------------------------------------- deviation classifiers
